@@ -64,3 +64,22 @@ def classify(cls, t, s, cutoff, dist):
     if not s: hit('empty_source')
     if t == s: hit('equal')
     hit('maxlen_bucket_%d' % (10 ** len(str(max(len(t), len(s), 1))) ))
+
+
+def gen_wide(rng, tier):
+    """lopsided and long pairs around the widths of narrow integers (index / length arithmetic done in u8 or u16 shows only above
+    255 / 65535): one side empty or a handful of elements, the other a few hundred; long runs inserted or deleted inside a
+    pair of otherwise similar lists. Returns [(class, t, s)]. The model handles these quickly (one side is short or the edit is one run)."""
+    out = []
+    lens = [255, 256, 257, 258, 300, 511, 513, 600] if tier == 'quick' else [255, 256, 257, 258, 300, 511, 512, 513, 600, 767, 1023, 1025, 1500]
+    for L in lens:
+        alpha = rng.choice([2, 6, 1000])
+        t = [rng.randrange(alpha) for _ in range(L)]
+        few = [rng.randrange(alpha) for _ in range(rng.randint(1, 9))]
+        out += [('wide_empty_source', t, []), ('wide_empty_target', [], t), ('wide_short_source', t, few), ('wide_short_target', few, t)]
+        # a long run inserted into / deleted from a short list, at the front, in the middle, at the end
+        base = [rng.randrange(alpha) for _ in range(rng.randint(9, 20))]
+        p = rng.choice([0, len(base) // 2, len(base)])
+        grown = base[:p] + [1000 + x for x in range(L)] + base[p:]
+        out += [('wide_run_inserted', grown, base), ('wide_run_deleted', base, grown)]
+    return out
